@@ -5,11 +5,14 @@ use super::run::RunResult;
 use serde::{Deserialize, Serialize};
 use std::collections::BTreeMap;
 
+pub mod c01;
 pub mod c02;
 pub mod c03;
+pub mod c04;
 pub mod c06;
 pub mod c07;
 pub mod c08;
+pub mod c13;
 pub mod common;
 
 #[derive(Serialize, Deserialize, Clone, Debug, PartialEq)]
@@ -67,7 +70,10 @@ pub fn check(prop: &str, r: &RunResult) -> Report {
 		}
 	}
 	match prop {
+		"C01" => c01::check(r, &mut rep),
 		"C02" => c02::check(r, &mut rep),
+		"C04" => c04::check(r, &mut rep),
+		"C13" => c13::check(r, &mut rep),
 		"C03" => c03::check(r, &mut rep),
 		"C06" => c06::check(r, &mut rep),
 		"C07" => c07::check(r, &mut rep),
